@@ -41,6 +41,7 @@ type udpHandler struct {
 	booted    chan struct{}
 	addrs     sync.Map // sender id -> *net.UDPAddr
 	processed [64]int64
+	burstAt   int64    // sequence number (of sender 1) whose callback is slow; -1: none yet
 	short     sync.Map // remote address -> queue of (s,k) of datagrams too short to carry a header
 }
 
@@ -72,6 +73,9 @@ func (h *udpHandler) OnTraffic(c Conn) Action {
 		}
 	}
 	h.rec.emit("Dgram", "s", s, "k", k, "n", len(b), "ib", ib, "ok", ok, "raddr", raddr, "g", g, "h", h.rec.handle(c.(*conn)))
+	if s == 1 && int64(k) == atomic.LoadInt64(&h.burstAt) {
+		time.Sleep(40 * time.Millisecond) // a slow callback: the burst that follows piles up in the socket meanwhile
+	}
 	rng := vsup.NewRng(uint64(s)*1000003 + uint64(k))
 	// consumption: none, part, all
 	switch rng.Intn(3) {
@@ -112,7 +116,16 @@ func (h *udpHandler) OnTraffic(c Conn) Action {
 				a, _ := h.addrs.Load(o)
 				reply[1] = 'S'
 				h.rec.emit("DReply", "s", s, "k", k, "kind", "S", "to", o)
-				n, err := c.SendTo(reply, a.(*net.UDPAddr))
+				// (an IPv4 target in either of its two representations, as net.ParseIP / net.ResolveUDPAddr give
+				// the 16-byte one and the kernel-derived addresses the 4-byte one)
+				to := a.(*net.UDPAddr)
+				if ip4 := to.IP.To4(); ip4 != nil {
+					to = &net.UDPAddr{IP: ip4, Port: to.Port}
+					if rng.Intn(2) == 0 {
+						to = &net.UDPAddr{IP: ip4.To16(), Port: to.Port}
+					}
+				}
+				n, err := c.SendTo(reply, to)
 				h.rec.emit("DReplied", "s", s, "k", k, "n", n, "err", errClass(err))
 				if rng.Intn(2) == 0 {
 					r2 := append([]byte{}, reply...)
@@ -135,7 +148,7 @@ func runUDPScenario(t *testing.T, rec *recorder, network, host string, loops int
 	rng := vsup.NewRng(seed)
 	rec.emit("Reset", "cfg", fmt.Sprintf("udp %s %s loops=%d", network, host, loops))
 	drops0 := udpKernelDrops()
-	h := &udpHandler{rec: rec, booted: make(chan struct{})}
+	h := &udpHandler{rec: rec, booted: make(chan struct{}), burstAt: -1}
 	pc, err := net.ListenPacket(network, net.JoinHostPort(host, "0"))
 	if err != nil {
 		rec.emit("UdpSkip", "why", err.Error())
@@ -233,6 +246,26 @@ func runUDPScenario(t *testing.T, rec *recorder, network, host string, loops int
 		}(s, vsup.NewRng(seed+uint64(s)))
 	}
 	swg.Wait()
+	// a burst: one datagram whose callback is slow, followed at once by many small ones (far more than fit into one
+	// round of the loop), then silence: every one of them is owed its event
+	{
+		const burst = 150
+		first := counts[1]
+		deadline := time.Now().Add(3 * time.Second)
+		for atomic.LoadInt64(&h.processed[1]) < int64(first) && time.Now().Before(deadline) {
+			time.Sleep(100 * time.Microsecond)
+		}
+		atomic.StoreInt64(&h.burstAt, int64(first))
+		r := vsup.NewRng(seed + 4711)
+		for k := first; k < first+burst; k++ {
+			n := dgHdr + r.Intn(24)
+			rec.emit("DSend", "s", 1, "k", k, "len", n)
+			if _, err := socks[1].Write(mkDgram(1, k, n)); err != nil {
+				rec.emit("DSendErr", "s", 1, "k", k, "err", err.Error())
+			}
+		}
+		counts[1] += burst
+	}
 	// quiescence: every datagram handled (loopback does not drop while little is in flight)
 	deadline := time.Now().Add(3 * time.Second)
 	for time.Now().Before(deadline) {
